@@ -164,7 +164,12 @@ Helper objects (`dissolve_local_objects`, applied to the functions of the module
     as the local `v__attr`.  An accumulating loop whose running state moved into a builder object is the loop again, and
     the interpretation and the provenance rules decide it as before.  Nothing is done when any use of the object is of
     another kind (passed on, returned, captured, `with`, `len(v)`...) or when the instances would share a container of
-    the class body (R8 reports on that).
+    the class body (R8 reports on that).  An instance that is never given a name - `K(a).m(b)`, `x = K(a).m(b)`,
+    `return K(a).attr`, `if K(a).m(): ...` - whose creation is the first thing its statement evaluates is `t = K(a)`
+    followed by the statement on the fresh local t, and is dissolved like a named one (a thin view object built around
+    the index group on every use is the group again).  An accessor method (no parameter but the receiver, body one
+    `return E` without scopes of its own, reading besides the receiver only names the caller never binds) is E at the
+    place of its call, also inside a comprehension of the caller.
 """
 
 from __future__ import annotations
@@ -3064,7 +3069,102 @@ def dissolve_local_objects(prog, m, fi, only=None) -> list[str]:
                     if not isinstance(ch, (ast.expr_context, ast.operator, ast.unaryop, ast.cmpop, ast.boolop)):
                         ch._parent = n
             done.append(name)
+    # an instance that is never given a name - `K(a).m(b)`, `x = K(a).m(b)`, `return K(a).attr`, `if K(a).m(): ...` - and
+    # whose creation is the first thing its statement evaluates is `t = K(a)` followed by the statement on t (t a fresh
+    # local): the same object, created at the same moment, unreachable after the statement either way
+    failed = 0
+    for _round in range(8):
+        fn = fi.node
+        work = _detached_copy(fn)
+        sites = _anonymous_instances(prog, m, fi, work, only)
+        if failed >= len(sites):
+            break
+        body, i, st, call, ci, (data, meths, dc) = sites[failed]
+        used = {x.id for x in ast.walk(work) if isinstance(x, ast.Name)} | {a.arg for a in ast.walk(work) if isinstance(a, ast.arg)}
+        stem = ci.name.strip('_').lower() or 'obj'
+        name = next(n for n in ([stem] + [f'{stem}{k}' for k in range(2, 50)])
+                    if n not in used and not any(u.startswith(n + '__') for u in used))
+        holder = next(p_ for p_ in ast.walk(st) if isinstance(p_, ast.Attribute) and p_.value is call)
+        holder.value = ast.copy_location(ast.Name(id=name, ctx=ast.Load()), call)
+        bind = ast.copy_location(ast.Assign(targets=[ast.copy_location(ast.Name(id=name, ctx=ast.Store()), call)], value=call), st)
+        prev_end = max((getattr(x, 'lineno', 0) for x in ast.walk(body[i - 1])), default=0) if i > 0 else 0
+        lo = max(st.lineno - 1, prev_end if prev_end < st.lineno else st.lineno - 1)
+        _set_lines([bind], lo, st.lineno)
+        body.insert(i, bind)
+        if _dissolve_one(work, name, ci, data, meths, dc, bind.lineno, _eligible_helper, _inline_call, _set_lines, _sites):
+            fn.body = work.body
+            for n in ast.walk(fn):
+                for ch in ast.iter_child_nodes(n):
+                    if not isinstance(ch, (ast.expr_context, ast.operator, ast.unaryop, ast.cmpop, ast.boolop)):
+                        ch._parent = n
+            done.append(name)
+        else:
+            failed += 1
     return done
+
+
+def _first_evaluated(st: ast.stmt):
+    """the chain of expressions of a simple statement (or of the test of an `if`) down to the one evaluated first: of a
+    call its callee, of an attribute / subscript its object, of an operation its left operand, of a display its first
+    element; an assignment evaluates its value before its targets"""
+    if isinstance(st, (ast.Expr, ast.Return)):
+        e = st.value
+    elif isinstance(st, ast.Assign):
+        e = st.value
+    elif isinstance(st, (ast.AnnAssign, ast.AugAssign)) and isinstance(st.target, ast.Name):
+        e = st.value
+    elif isinstance(st, ast.If):
+        e = st.test
+    else:
+        e = None
+    out = []
+    while e is not None:
+        out.append(e)
+        if isinstance(e, ast.Call):
+            e = e.func
+        elif isinstance(e, (ast.Attribute, ast.Subscript)):
+            e = e.value
+        elif isinstance(e, ast.BinOp):
+            e = e.left
+        elif isinstance(e, ast.Compare):
+            e = e.left
+        elif isinstance(e, ast.BoolOp):
+            e = e.values[0]
+        elif isinstance(e, ast.UnaryOp):
+            e = e.operand
+        elif isinstance(e, ast.IfExp):
+            e = e.test
+        elif isinstance(e, (ast.Tuple, ast.List, ast.Set)) and e.elts and not isinstance(e.elts[0], ast.Starred):
+            e = e.elts[0]
+        else:
+            e = None
+    return out
+
+
+def _anonymous_instances(prog, m, fi, fn, only=None):
+    """[(block, index, statement, call, class, layout)]: `K(..).<attr>` with K a small class of the module
+    (`_class_layout`) whose creation is the first thing the statement evaluates, in statement order"""
+    from ..temps import blocks
+    out = []
+    for _, _, body in blocks(fn):
+        for i, st in enumerate(body):
+            chain = _first_evaluated(st)
+            for up, e in zip(chain, chain[1:]):
+                if not (isinstance(e, ast.Call) and isinstance(e.func, ast.Name) and isinstance(up, ast.Attribute) and up.value is e):
+                    continue
+                if any(isinstance(a, ast.Starred) for a in e.args) or any(k.arg is None for k in e.keywords):
+                    continue
+                ci = prog.resolve_class_expr(m, e.func)
+                if ci is None or ci.module is not m or (fi.cls is not None and fi.cls.node is ci.node):
+                    continue
+                if only is not None and ci.name not in only:
+                    continue
+                lay = _class_layout(ci.node)
+                if lay is not None:
+                    out.append((body, i, st, e, ci, lay))
+                break
+    out.sort(key=lambda s_: getattr(s_[2], 'lineno', 0) or 0)
+    return out
 
 
 def _detached_copy(node):
@@ -3218,6 +3318,50 @@ def _dissolve_one(fn, name, ci, data, meths, dc, line0, _eligible_helper, _inlin
         _PropReads().visit(fn)
         for h in helpers.values():
             _PropReads().visit(h)
+    # an accessor - no parameter but the receiver, body one `return E` with E free of scopes of its own and reading, besides
+    # the receiver, only names the caller never binds - is E at the place of the call, wherever that is (also inside a
+    # comprehension or a lambda of the caller, where the statement inliner does not go)
+    stored_here = {x.id for x in ast.walk(fn) if isinstance(x, ast.Name) and not isinstance(x.ctx, ast.Load)} \
+        | {a.arg for a in ast.walk(fn) if isinstance(a, ast.arg)}
+    accessors = {}
+    for mname, h in helpers.items():
+        hb = [s_ for k_, s_ in enumerate(h.body) if not (k_ == 0 and isinstance(s_, ast.Expr) and isinstance(s_.value, ast.Constant)
+                                                         and isinstance(s_.value.value, str))]
+        a_ = h.args
+        if len(hb) != 1 or not isinstance(hb[0], ast.Return) or hb[0].value is None or len(a_.args) != 1 or a_.posonlyargs \
+                or a_.kwonlyargs or a_.vararg or a_.kwarg or mname in kwdict:
+            continue
+        E = hb[0].value
+        if any(isinstance(x, (ast.Lambda, ast.ListComp, ast.SetComp, ast.DictComp, ast.GeneratorExp, ast.NamedExpr, ast.Yield,
+                              ast.YieldFrom, ast.Await)) for x in ast.walk(E)):
+            continue
+        if any(isinstance(x, ast.Name) and x.id != name and (x.id in stored_here or not isinstance(x.ctx, ast.Load))
+               for x in ast.walk(E)):
+            continue
+        accessors[mname] = E
+    if accessors:
+        class _Open(ast.NodeTransformer):
+            def visit_Call(self, n):
+                self.generic_visit(n)
+                if isinstance(n.func, ast.Attribute) and isinstance(n.func.value, ast.Name) and n.func.value.id == name \
+                        and n.func.attr in accessors and not n.args and not n.keywords:
+                    e = copy.deepcopy(accessors[n.func.attr])
+                    for x in ast.walk(e):
+                        if isinstance(x, (ast.expr, ast.keyword)):
+                            ast.copy_location(x, n)
+                    return e
+                return n
+        for _ in range(6):              # accessors reading accessors
+            before = ast.dump(fn)
+            _Open().visit(fn)
+            if ast.dump(fn) == before:
+                break
+        for h in helpers.values():
+            for _ in range(6):
+                before = ast.dump(h)
+                _Open().visit(h)
+                if ast.dump(h) == before:
+                    break
     for _ in range(200):
         hit = None
         for x in ast.walk(fn):
@@ -3284,7 +3428,76 @@ def _dissolve_one(fn, name, ci, data, meths, dc, line0, _eligible_helper, _inlin
             self.generic_visit(n)
             return n
     _ToLocal().visit(fn)
+    _drop_constructor_aliases(fn, name)
     return True
+
+
+def _drop_constructor_aliases(fn, name) -> int:
+    """`v__a = L` - L a plain local or parameter of the function, or a constant -, the only store into the attribute-local
+    `v__a`, outside any loop, with L never stored afterwards (and never bound by a nested scope): `v__a` is L from there
+    on, the uses read L and the statement goes.  (`K(slope=slope, ...)` dissolved gives back the caller's own names.)"""
+    from ..temps import blocks
+    pre = f'{name}__'
+    n = 0
+    for _ in range(40):
+        parents = {id(c): p_ for p_ in ast.walk(fn) for c in ast.iter_child_nodes(p_)}
+
+        def inside(x, kinds):
+            q = parents.get(id(x))
+            while q is not None and q is not fn:
+                if isinstance(q, kinds):
+                    return True
+                q = parents.get(id(q))
+            return False
+        stores: dict = {}
+        for x in ast.walk(fn):
+            if isinstance(x, ast.Name) and not isinstance(x.ctx, ast.Load):
+                stores.setdefault(x.id, []).append(x)
+        nested_args = {a.arg for x in ast.walk(fn) if x is not fn and isinstance(x, (ast.Lambda, ast.FunctionDef, ast.AsyncFunctionDef))
+                       for a in ast.walk(x.args) if isinstance(a, ast.arg)}
+        declared = {g for x in ast.walk(fn) if isinstance(x, (ast.Global, ast.Nonlocal)) for g in x.names}
+        hit = None
+        for _, _, body in blocks(fn):
+            for i, st in enumerate(body):
+                if not (isinstance(st, ast.Assign) and len(st.targets) == 1 and isinstance(st.targets[0], ast.Name)
+                        and st.targets[0].id.startswith(pre) and isinstance(st.value, (ast.Name, ast.Constant))):
+                    continue
+                A = st.targets[0].id
+                if len(stores.get(A, [])) != 1 or inside(st, (ast.For, ast.AsyncFor, ast.While)):
+                    continue
+                if isinstance(st.value, ast.Name):
+                    L = st.value.id
+                    if L.startswith(pre) or L in nested_args or L in declared:
+                        continue
+                    if any((getattr(y, 'lineno', 0) or 0) >= st.lineno
+                           or inside(y, (ast.ListComp, ast.SetComp, ast.DictComp, ast.GeneratorExp, ast.Lambda, ast.FunctionDef,
+                                         ast.AsyncFunctionDef, ast.ClassDef)) for y in stores.get(L, []) if y is not st.targets[0]):
+                        continue
+                    if any(isinstance(y, ast.Delete) and any(isinstance(t, ast.Name) and t.id == L for t in y.targets)
+                           for y in ast.walk(fn)):
+                        continue
+                elif not _immutable_literal(st.value):
+                    continue
+                hit = (body, i, A, st.value)
+                break
+            if hit:
+                break
+        if hit is None:
+            break
+        body, i, A, val = hit
+        del body[i]
+        if not body:
+            body.append(ast.copy_location(ast.Pass(), val))
+
+        class _Sub(ast.NodeTransformer):
+            def visit_Name(self, x):
+                if x.id == A and isinstance(x.ctx, ast.Load):
+                    return ast.copy_location(copy.deepcopy(val), x)
+                return x
+        import copy
+        _Sub().visit(fn)
+        n += 1
+    return n
 
 
 def _reaches_index(prog, m, fi, depth: int = 0, seen=None):
